@@ -230,6 +230,46 @@ theorem replay_log (dev : Device) (nQ : Nat) (ops : List Op) (h : AllOk (SeqStat
         rw [hrep]
   exact key ops (SeqState.init dev nQ) rfl rfl rfl h
 
+/-- Every call of the history either succeeds or is refused with an error of the atomic class
+(`early`): what a user does when a call raises — catch the exception and carry on. -/
+def AllOkOrRefused : SeqState → List Op → Prop
+  | _, [] => True
+  | s, op :: rest =>
+    (((stepRaw s op).err = none ∧ NodupOpts op) ∨ ∃ e, (stepRaw s op).err = some e ∧ early op e = true) ∧
+      AllOkOrRefused (stepRaw s op).st rest
+
+/-- **A sequence is exactly the effect of its successful calls** — also when calls were refused in
+between: for every history in which each call either succeeds or raises an error of the atomic
+class, the state equals the replay of the recorded (successful) calls on a fresh sequence.
+(`replay_log` is the special case without refusals.) -/
+theorem replay_log_with_refusals (dev : Device) (nQ : Nat) (ops : List Op)
+    (h : AllOkOrRefused (SeqState.init dev nQ) ops) :
+    run (SeqState.init dev nQ) (run (SeqState.init dev nQ) ops).calls = run (SeqState.init dev nQ) ops := by
+  have key : ∀ (ops : List Op) (s : SeqState), s.dev = dev → s.nQ = nQ →
+      run (SeqState.init dev nQ) s.calls = s → AllOkOrRefused s ops →
+      run (SeqState.init dev nQ) (run s ops).calls = run s ops := by
+    intro ops
+    induction ops with
+    | nil => intro s _ _ hs _; exact hs
+    | cons op rest ih =>
+      intro s hd hq hs hok
+      obtain ⟨h12, h3⟩ := hok
+      have hrun : run s (op :: rest) = run (stepRaw s op).st rest := rfl
+      rw [hrun]
+      rcases h12 with ⟨h1, h2⟩ | ⟨e, he, hearly⟩
+      · rcases step_record s op h1 h2 with ⟨_, hst⟩ | ⟨op', hc, hdev, hnq, hrep⟩
+        · rw [hst] at h3 ⊢
+          exact ih s hd hq hs h3
+        · apply ih (stepRaw s op).st (hdev.trans hd) (hnq.trans hq) _ h3
+          rw [hc, run_append, hs]
+          show (stepRaw s op').st = (stepRaw s op).st
+          rw [hrep]
+      · -- the refused call left nothing behind
+        have hst := failed_call_atomic_partial s op e he hearly
+        rw [hst] at h3 ⊢
+        exact ih s hd hq hs h3
+  exact key ops (SeqState.init dev nQ) rfl rfl rfl h
+
 /-! ### The excluded pairs are genuinely not atomic (known findings F2.x) -/
 
 def exCfg : ChanCfg := { clock := 4, minDur := 16, rise := 120, pjt := 240 }
@@ -272,6 +312,14 @@ theorem delay_over_max_seq_not_atomic :
   decide +kernel
 
 /-! ### Non-vacuity -/
+/-- a history with two refused calls in between (a delay below the minimum duration, a channel
+declared on a bad initial target) meets the hypothesis of `replay_log_with_refusals` -/
+example : AllOkOrRefused (SeqState.init exDev 1)
+    [.declare (.user 0) 0 none, .add { dur := 100, fallStd := 240, ref := 1 } (.user 0) (some .minDelay),
+     .delay 3 (.user 0) true, .delay 100 (.user 0) true] := by
+  refine ⟨.inl ⟨by decide +kernel, trivial⟩, .inl ⟨by decide +kernel, trivial⟩,
+    .inr ⟨.durTooShort, by decide +kernel, by decide⟩, .inl ⟨by decide +kernel, trivial⟩, trivial⟩
+
 example : AllOk (SeqState.init exDev 1)
     [.declare (.user 0) 0 none, .add { dur := 100, fallStd := 240, ref := 1 } (.user 0) (some .minDelay),
      .getDuration none true, .delay 100 (.user 0) true] := by
